@@ -4,6 +4,7 @@ from __future__ import annotations
 import re
 
 from props.c06_old import OldApiScenario
+from props.c13 import gen_attrs
 from simkit import drawworld as dw
 from simkit import simrenderable
 from simkit.core import Violation, check
@@ -48,6 +49,7 @@ PROBES = ["kitty_chunked_transfer", "cut_inside_apc_payload", "cut_inside_csi", 
           "interrupt_during_sleep", "interrupt_in_frame_2_or_later", "interrupt_in_render",
           "retained_remainder_delivered_later", "old_api", "new_api", "still_image_propagates",
           "interrupted_flush_delivers_prefix", "write_cut_inside_earlier_buffered_data",
+          "echo_already_off_on_entry", "stdout_not_a_tty",
           "animation_ends_silently"]
 COMPONENTS = {
     "real": ["Renderable.draw/_animate_/_init_render_/_handle_interrupted_draw_ call sites",
@@ -120,9 +122,12 @@ def run(ch, ctx, fault=None):
     rows = ch.skewed("rows", 3, 16)
     cols = ch.skewed("cols", 4, 40)
     buffered = ch.bool("buffered", 0.5)
+    # stdout is usually the terminal itself; when it is not (a pipe or relay in front of one)
+    # no cursor / termios handling takes place but attributes and control strings still matter
+    isatty = ch.bool("isatty", 0.85)
     retain = bool(fault and fault.get("retain"))
     w = World(ctx, ch, fault, rows=rows, cols=cols, profile=profile,
-              cell_px=(ch.int("cw", 2, 12), ch.int("chh", 4, 24)), stdout_tty=True,
+              cell_px=(ch.int("cw", 2, 12), ch.int("chh", 4, 24)), stdout_tty=isatty,
               buffered=buffered, retain=retain, reuse=True)
     k, tty, vt, out = w.k, w.tty, w.vt, w.out
     out.keep_full = fault is None
@@ -134,7 +139,7 @@ def run(ch, ctx, fault=None):
     else:
         sc = OldApiScenario(ch, ctx, w, small=True)
     info = {"api": api, "scenario": None, "terminal": (cols, rows), "r0": r0,
-            "buffered": buffered, "profile": "%s %s" % (profile.name, profile.version),
+            "buffered": buffered, "isatty": isatty, "profile": "%s %s" % (profile.name, profile.version),
             "fault": fault}
     fired = {}
 
@@ -180,6 +185,13 @@ def run(ch, ctx, fault=None):
             vt.placements = []
             vt.errors = []
             vt.r, vt.c = r0, 0
+            # the terminal may be in any mode when draw() is called (a key-reading application
+            # has echo off already, ...)
+            tty.attrs = gen_attrs(ch)
+            if not tty.echo():
+                ctx.probe("echo_already_off_on_entry")
+            if not isatty:
+                ctx.probe("stdout_not_a_tty")
             entry = tty.mark_entry()
             k.counts.clear()
             k.seq_log = []
@@ -258,7 +270,11 @@ def run(ch, ctx, fault=None):
                 dw.terminal_restored(vt, tty, entry, True, dict(inf, phase=phase), where,
                                      after=phase, strings_only=True)
 
-            post_state("immediately")
+            if isatty:
+                post_state("immediately")
+            # (a stdout that is not a tty is fully buffered: what the library wrote last reaches
+            # the terminal when the stream's owner flushes it, at the latest at exit - only that
+            # state can be judged)
             out.drain()
             post_state("after_later_flush")
             # the terminal is not swallowing output: a probe glyph lands on the grid
